@@ -85,6 +85,9 @@ pub struct Plan {
     /// number of cases additionally run under flavour B (checked + ASan); 0 = none
     pub cases_b: usize,
     pub strategy: BoxedStrategy<Value>,
+    /// CPU tier cap for the workers that execute this plan (hook H2): None = native,
+    /// Some("scalar" | "sse42" | "avx2")
+    pub cap: Option<String>,
 }
 
 impl Plan {
@@ -105,7 +108,13 @@ impl Plan {
                     serde_json::json!({"cell": cell_s.clone(), "c": v})
                 })
                 .boxed(),
+            cap: None,
         }
+    }
+    /// Run this plan in worker processes whose run-time CPU feature detection is capped.
+    pub fn cap(mut self, cap: &str) -> Plan {
+        self.cap = Some(cap.to_string());
+        self
     }
 }
 
@@ -130,6 +139,11 @@ pub trait Prop: Sync + Send {
     /// is exceeding the CPU budget a violation for this property (C15 hang, C18 stuck)?
     fn hang_is_violation(&self) -> bool {
         false
+    }
+    /// CPU tier caps (hook H2) under which every plan is additionally run in the release
+    /// flavour: (cap, fraction of the plan's cases).  Caps: "scalar", "sse42", "avx2".
+    fn tier_caps(&self) -> Vec<(&'static str, f64)> {
+        vec![]
     }
     /// Optional extra phase run by the supervisor after the generated search (e.g. bounded
     /// exhaustive enumeration). Returns extra cases to execute.
